@@ -10,4 +10,4 @@ cd "$D/repo"
 PYTHONPATH="$D/repo/src:/verif/shim" PYTHONHASHSEED=0 /venv/bin/python -m pytest -q -p no:cacheprovider -n 8 --timeout=900 \
    -x --co -q >/dev/null 2>&1 || true
 PYTHONPATH="$D/repo/src:/verif/shim" PYTHONHASHSEED=0 /venv/bin/python -m pytest -q -p no:cacheprovider -n 8 --timeout=900 \
-   --continue-on-collection-errors -rf 2>&1 | tail -40
+   --continue-on-collection-errors -rfE 2>&1 | tail -${TAILN:-40}
